@@ -31,6 +31,13 @@ func init() {
 					jobs = append(jobs, run.Job{ID: fmt.Sprintf("writes/%d:%s", i, s.String()), Pkg: run.Module, Harness: "H_Writes", Params: q, Race: true})
 				}
 			}
+			// lists longer than the enumeration reaches, all values symbolic: a change that normalises a list in
+			// place (de-duplication, sorting) writes only when the list has a particular content
+			for i, ops := range [][]string{{"Equal", "Equal", "GreaterThan"}, {"GreaterThan", "Equal", "Equal"}, {"Equal", "Equal", "Equal", "Equal"}} {
+				s := PolicyShape{Groups: []groupShape{{u: 1, ents: []entShape{{ops: ops}}}}, Names: []int{0, 1}}
+				jobs = append(jobs, run.Job{ID: fmt.Sprintf("det/list%d:%s", i, s.String()), Pkg: run.Module, Harness: "H_Det", Params: s.Params("x86_64", i%2, names, true)})
+				jobs = append(jobs, run.Job{ID: fmt.Sprintf("writes/list%d:%s", i, s.String()), Pkg: run.Module, Harness: "H_Writes", Params: s.Params("x86_64", 0, names, true), Race: true})
+			}
 			// large shapes: bridging (the labels map is ranged over in updateIndices)
 			lj, err := largeCondJobs(c, "C13", "x86_64", []condLayout{{64, 1}, {22, 3}}, 0)
 			if err != nil {
